@@ -138,12 +138,18 @@ def build_route_decision_event(
 
     from hypergraph.events.types import RouteDecisionEvent
 
+    # Observers get their own copy: a multi-target decision is a list that the
+    # run state keeps, and a processor mutating it must not change the routing.
+    decision = state.routing_decisions[node.name]
+    if isinstance(decision, list):
+        decision = list(decision)
+
     return RouteDecisionEvent(
         run_id=run_id,
         parent_span_id=run_span_id,
         node_name=node.name,
         graph_name=graph.name,
-        decision=state.routing_decisions[node.name],
+        decision=decision,
     )
 
 
